@@ -72,3 +72,22 @@ Lemma ex_flip_before_rotate_refuted :
   applies (rr_ev (replay false false ex_u 12345 img 0 None)) = [(44, [0; 2; 3; 4; 5]); (132, ex_b2)] /\
   rr_err (replay true false ex_u 12345 img 0 None) = ECrc.
 Proof. vm_compute. repeat split; reflexivity. Qed.
+
+(* F-C18a, second half: damage inside the levRotateTo record itself (here: its NextLogHash field, last byte of chunk 0).
+   The code neither consumes that record into its crc nor compares the next chunk's levRotateFrom.Crc32 (which the writer
+   computed over it) with anything, so even with levRotateTo.Crc32 verified the flip passes; the repaired reader compares
+   the crc of the log including levRotateTo with the next chunk's header and stops with a checksum error *)
+Lemma ex_flip_inside_rotate_record_refuted :
+  let img := flip_files 0 95 0 (image_of ex_w) in
+  nth_error (map (fun f => len f) (image_of ex_w)) 0 = Some 96 /\
+  rr_err (replay false false ex_u 12345 img 0 None) = ENone /\
+  applies (rr_ev (replay false false ex_u 12345 img 0 None)) = [(44, ex_b1); (132, ex_b2)] /\
+  rr_err (replay true false ex_u 12345 img 0 None) = ECrc /\
+  applies (rr_ev (replay true false ex_u 12345 img 0 None)) = [(44, ex_b1)].
+Proof. vm_compute. repeat split; reflexivity. Qed.
+
+(* the chain check of the repaired reader, for every header and every carried crc *)
+Lemma read_files_chain_mismatch fx u h r from si eoff ts ev pa ca c :
+  h_crc h <> c ->
+  read_files fx true u (h :: r) from si eoff ts ev pa ca (Some c) = {| rr_ev := rev ev; rr_err := ECrc; rr_pos := pa; rr_crc := ca |}.
+Proof. intros H. cbn [read_files]. rewrite (proj2 (Z.eqb_neq _ _) H). reflexivity. Qed.
